@@ -60,6 +60,9 @@ fn once_edited(input: &[u8]) -> (String, Option<Vec<u8>>) {
     let cfg = cfg_from_mask(DEFAULT_CFG);
     match guarded(|| {
         cfg.parse(input).map(|mut m| {
+            // emitted once before anything is edited: whatever the first emission remembers (per thread, per
+            // module) must not show in the second one, which follows edits that renumber types and functions
+            let _first = m.emit_wasm();
             walrus::passes::gc::run(&mut m);
             // lookups by name: names are long (cheap scans would finish before any work is stolen) and unique
             // except for three adjacent pairs, placed where a split of the function list would separate them;
@@ -91,6 +94,17 @@ fn once_edited(input: &[u8]) -> (String, Option<Vec<u8>>) {
                 if let Some(f) = m.funcs.by_name(name) {
                     m.exports.add("wv_by_name", f);
                 }
+            }
+            // two new types that sort in front of most others, used by a new exported function (so that every later
+            // type index moves), one of them as the type of a multi-value block
+            {
+                let t_block = m.types.add(&[], &[walrus::ValType::I32, walrus::ValType::I32]);
+                let mut fb = walrus::FunctionBuilder::new(&mut m.types, &[], &[]);
+                fb.func_body().block(t_block, |b| {
+                    b.i32_const(1).i32_const(2);
+                }).drop().drop();
+                let f = fb.finish(vec![], &mut m.funcs);
+                m.exports.add("wv_second_emit", f);
             }
             let mark = |id: walrus::FunctionId, f: &mut walrus::LocalFunction| {
                 let mut b = f.builder_mut().func_body();
